@@ -5,7 +5,7 @@
    by differential testing against the Go toolchain only.  Statements only; every proof is [exact lemma]. *)
 From NG Require Import VM.Model.
 From NG Require Import Common.Tactics Lang.MiniGo Lang.Target Lang.Compile Lang.CorrectBase Lang.Correct Lang.Mono.
-From NG Require Import Lang.Assemble Lang.VMRefine Lang.VMCorrect Lang.InitFrame.
+From NG Require Import Lang.Assemble Lang.VMRefine Lang.VMCorrect Lang.InitFrame Lang.RecoverSlot.
 Open Scope Z_scope.
 
 (* Whenever the source run of function [f] on [vs] is defined — it returns a value, or divides by zero; no
@@ -299,6 +299,31 @@ Example C14_example_init_frame :
   run_tgt (compile_with_frame 6 [] C14_ex_init_bodies [C14_ex_init_callee]) 500 0%nat [] = THalt [] /\
   run_tgt (compile_with_frame 1 [] C14_ex_init_bodies [C14_ex_init_callee]) 500 0%nat [] = TFault.
 Proof. repeat split; vm_compute; tauto. Qed.
+
+(* ---------- the slot of the saved panic value (MiniGo has no panics: a state machine of its own, Lang/RecoverSlot.v) ----------
+   recover() reads AND clears the slot, in every syntactic position (bare statement, blank assignment, variable,
+   condition): the operations the compiler emits reproduce, on every trace of caught panics and recover() calls of one
+   invocation, what the recover() calls whose value is looked at return in Go. *)
+Theorem C14_recover_trace_correct : forall tr s, tgt emit tr s = src tr s.
+Proof. exact recover_trace_correct. Qed.
+Print Assumptions C14_recover_trace_correct.
+
+Theorem C14_recover_clears : forall pos s, fst (run_ops (emit pos) s []) = None.
+Proof. exact recover_clears. Qed.
+Print Assumptions C14_recover_clears.
+
+(* ... so the next recover() without a new panic yields nil *)
+Theorem C14_recover_then_nil : forall pos1 pos2 v rest,
+  observed pos2 = true ->
+  tgt emit (EPanic v :: ERecover pos1 :: ERecover pos2 :: rest) None
+  = (if observed pos1 then [Some v] else []) ++ None :: tgt emit rest None.
+Proof. exact recover_then_nil. Qed.
+Print Assumptions C14_recover_then_nil.
+
+(* refuted: no code for the bare statement `recover()` — panic 7; recover(); r := recover() yields 7, Go yields nil *)
+Theorem C14_recover_elided_refuted : ~ (forall tr s, tgt emit_elided tr s = src tr s).
+Proof. exact recover_elided_refuted. Qed.
+Print Assumptions C14_recover_elided_refuted.
 
 (* block scoping: the first clause declares the parameter's name again (its own slot, gone at the end of the clause);
    the second clause, the default clause (a write), the statement after the switch and the later iterations mean
